@@ -544,3 +544,6 @@ CHECKS["C14"]["jobs"].append(J("concurrent", VSTORE, "TestC14ConcurrentWrites", 
 CHECKS["C14"]["required_classes"]["all"] += ["concurrent-writers"]
 
 CHECKS["C18"]["required_classes"]["all"] += ["reload:upgrades=local"]
+
+CHECKS["C16"]["jobs"].append(J("agentconcurrent", AGENT, "TestC16AgentConcurrentOps", {"shards": 2, "n": 12}, {"shards": 8, "n": 200}, toolchain="go126", rapid=False))
+CHECKS["C16"]["required_classes"]["all"] += ["agent-level-competing-adds"]
